@@ -49,6 +49,10 @@ pub struct C18Case {
     /// hash seeds, cold lazy statics) and compare the printed outputs character by character
     #[serde(default)]
     pub other_process: bool,
+    /// the first unit is built so that the first table lookup of a run falls exactly on an
+    /// interior breakpoint of a non-flat map
+    #[serde(default)]
+    pub first_lookup_on_breakpoint: Option<usize>,
 }
 
 /// `vcheck c18-once <casefile>`: run the scenario once and print its complete output
@@ -362,6 +366,52 @@ impl C18 {
                 u.harmonise_ratings();
             }
         }
+        // exact coincidence (a third of the locomotive simulations and batches whose first unit
+        // is a conventional one): the engine's initial power limit is placed so that the very
+        // first table lookup of the run — generator efficiency at (engine limit / generator
+        // rating) — falls bitwise on an interior breakpoint of the generator's (non-flat) map
+        let mut first_lookup_on_breakpoint: Option<usize> = None;
+        if (kind == 0 || kind == 8) && g.bool(0.33) {
+            let fresh = gen_unit(g, Some(false));
+            if let UnitSpec::Conv { mut fc, mut gen, edrv, aux_offset, aux_coeff } = fresh {
+                let n = gen.fracs.len();
+                if n >= 4 && gen.etas.iter().any(|e| *e != gen.etas[0]) {
+                    // prefer a breakpoint whose table value is not reproduced bit for bit by
+                    // linear interpolation over the segment to its left
+                    let xs: Vec<f64> = gen.fracs.iter().zip(&gen.etas).map(|(f, e)| f / e).collect();
+                    let inexact: Vec<usize> = (1..n - 1).filter(|k| gen.etas[*k - 1] + (gen.etas[*k] - gen.etas[*k - 1]) / (xs[*k] - xs[*k - 1]) * (xs[*k] - xs[*k - 1]) != gen.etas[*k]).collect();
+                    let mut k = if inexact.is_empty() { g.usize(1, n - 2) } else { inexact[g.idx(inexact.len())] };
+                    if inexact.is_empty() {
+                        // none: look for an efficiency value at some breakpoint that makes it so
+                        // (the abscissae frac/eta must stay strictly increasing)
+                        let start = g.usize(0, 400);
+                        'search: for kk in 1..n - 1 {
+                            for j in 0..401 {
+                                let yr = 0.6 + 0.001 * ((start + j * 37) % 401) as f64;
+                                let yr = (yr * 1000.0).round() / 1000.0;
+                                let xk = gen.fracs[kk] / yr;
+                                if !(xk > xs[kk - 1] && xk < xs[kk + 1]) {
+                                    continue;
+                                }
+                                if gen.etas[kk - 1] + (yr - gen.etas[kk - 1]) / (xk - xs[kk - 1]) * (xk - xs[kk - 1]) != yr {
+                                    gen.etas[kk] = yr;
+                                    k = kk;
+                                    break 'search;
+                                }
+                            }
+                        }
+                    }
+                    let b = gen.fracs[k] / gen.etas[k];
+                    let init = b * gen.pwr_max;
+                    if init / gen.pwr_max == b && init <= fc.pwr_max && init >= fc.pwr_max / 10.0 {
+                        fc.init = init;
+                        fc.lag = fc.lag.max(10.0 * fc.pwr_max / init * 3.0);
+                        first_lookup_on_breakpoint = Some(k);
+                        units[0] = UnitSpec::Conv { fc, gen, edrv, aux_offset, aux_coeff };
+                    }
+                }
+            }
+        }
         let n = g.usize(4, 40);
         let mut t = 0.0;
         let mut trace = vec![(0.0, 0.0)];
@@ -410,14 +460,25 @@ impl C18 {
         }
         let one_sample: Vec<usize> = if kind == 8 && g.bool(0.2) { vec![g.idx(batch.len().max(1))] } else { vec![] };
         let walk_twice = kind == 8 && g.bool(0.15);
-        C18Case { kind, units, pdct: g.int(0, 1) as u8, trace, train, corridor, speed, batch, hash_noise: g.usize(0, 50), one_sample, walk_twice, other_process: kind != 8 && g.bool(0.12) }
+        C18Case { kind, units, pdct: g.int(0, 1) as u8, trace, train, corridor, speed, batch, hash_noise: g.usize(0, 50), one_sample, walk_twice, other_process: kind != 8 && g.bool(0.12), first_lookup_on_breakpoint }
     }
 
     fn check(case: &C18Case, cx: &mut Ctx) {
         cx.label(["loco_sim", "consist_sim", "set_speed", "speed_limited", "est_times", "dispatch", "path_profile", "train_params", "parallel_batch"][case.kind as usize % 9]);
+        cx.label_if(case.first_lookup_on_breakpoint.is_some(), "first_table_lookup_exactly_on_a_breakpoint");
         if case.kind == 8 {
             check_batch(case, cx);
             return;
+        }
+        // the first run happens on this worker's long-lived thread, after whatever the previous
+        // cases did on it and after a few unrelated calls of the library's public table lookup
+        // (a generated bracket of a 7-point table): results may not depend on what the thread
+        // did before
+        {
+            let xs = [0.0, 1.0, 2.0, 3.0, 4.0, 5.0, 6.0];
+            let ys = [0.0, 1.0, 4.0, 9.0, 16.0, 25.0, 36.0];
+            let x = case.first_lookup_on_breakpoint.unwrap_or(case.hash_noise % 6).min(5) as f64 + 0.5;
+            let _ = altrios_core::utils::interp1d(&x, &xs, &ys, false);
         }
         let first = match catch(|| run_once(case)) {
             Err(p) => {
